@@ -51,7 +51,10 @@ class InitMethod(MethodDescriptor):
             )
             for parent in reversed(spec_cls.mro()[1:]):
                 parent_metadata = getattr(parent, "__spec_class__", None)
-                if parent_metadata:
+                # A parent that is not itself a spec-class merely inherits the
+                # metadata (and constructor) of the spec-class it derives from,
+                # which gets its own turn in this loop.
+                if parent_metadata and parent_metadata.owner is parent:
                     parent_kwargs = {}
                     for attr in parent_metadata.attrs:
                         instance_attr_spec = instance_metadata.attrs[attr]
